@@ -1,6 +1,8 @@
 """Client-level stages (h_client) of the properties C02-C04, C06, C07, C09, C10, C12-C14, C17 and the end-to-end part of C05."""
 from props.cligen import *
 
+# thorough sizes are bounded by the machine: every transfer is a real loopback TCP connection whose closed end stays in
+# TIME_WAIT for 60 s; more than ~25000 connections per minute exhaust the ephemeral port range and bind()/connect() start to fail
 def n_of(ctx, quick, thorough):
     return quick if ctx["tier"] == "quick" else thorough
 
@@ -25,7 +27,7 @@ def gen_c02(ctx):
     for user in (None, (b"u", b"p")):
         cfg = Cfg(rng, "C02"); c0 = str(cfg)
         yield line(c0, [op_connect(rng, cfg, user=user, greeting=[R(b"120 wait"), R(b"220 hi")]), op_simple(rng, cfg, "noop", 200)])
-    for _ in range(n_of(ctx, 500, 30000)):
+    for _ in range(n_of(ctx, 500, 5000)):
         cfg0, ops = random_history(rng, "C02")
         yield line(cfg0, ops)
 
@@ -54,7 +56,7 @@ def gen_c03(ctx):
                     comp = rng.choice([226, 250])
                     yield line(c0, start(rng, cfg, login=False) + [op_get(rng, cfg, size=size, completion=comp)])
     ctx["scopes"].append("binary downloads: payload sizes %s x passive/active x EPSV-EPRT/PASV-PORT x IPv4/IPv6" % SIZES)
-    for _ in range(n_of(ctx, 300, 20000)):
+    for _ in range(n_of(ctx, 300, 4000)):
         cfg = Cfg(rng, "C03", ttype="I"); c0 = str(cfg)
         ops = start(rng, cfg, login=rng.chance(1, 2))
         for _ in range(rng.range(1, 3)):
@@ -64,7 +66,7 @@ def gen_c03(ctx):
 
 def gen_c05_client(ctx):
     rng = ctx["rng"]
-    for _ in range(n_of(ctx, 300, 10000)):
+    for _ in range(n_of(ctx, 300, 3000)):
         cfg = Cfg(rng, "C05", ttype="A"); c0 = str(cfg)
         ops = start(rng, cfg, login=False)
         r = rng.below(3)
@@ -87,7 +89,7 @@ def gen_c04(ctx):
                         cfg = Cfg(rng, "C04", mode=mode, rfc=rfc, ttype="I", ip=ip); c0 = str(cfg)
                         yield line(c0, start(rng, cfg, login=False) + [op_put(rng, cfg, verb=verb, size=size)])
     ctx["scopes"].append("binary uploads: payload sizes %s x STOR (all sizes) / STOU, APPE (3 sizes) x four methods x IPv4/IPv6" % SIZES)
-    for _ in range(n_of(ctx, 300, 20000)):
+    for _ in range(n_of(ctx, 300, 4000)):
         cfg = Cfg(rng, "C04", ttype="I"); c0 = str(cfg)
         ops = start(rng, cfg, login=rng.chance(1, 2))
         for _ in range(rng.range(1, 3)):
@@ -109,7 +111,7 @@ def gen_c06_client(ctx):
             elif kind == "put": o = "put:STOR:%s:h6162:-:ok:-@%s/%s" % (H(b"f"), R(t), R(b"550 no"))
             else: o = "list:-:0@%s/%s" % (R(t), R(b"550 no"))
             yield line(c0, start(rng, cfg, login=False) + [o, op_simple(rng, cfg, "noop", 200)])
-    for _ in range(n_of(ctx, 400, 20000)):
+    for _ in range(n_of(ctx, 400, 4000)):
         cfg = Cfg(rng, "C06"); c0 = str(cfg)
         ops = start(rng, cfg, login=False)
         for _ in range(rng.range(1, 4)):
@@ -137,7 +139,7 @@ def gen_c07(ctx):
                         follow = rng.choice([op_simple(rng, cfg, "noop", 200), op_get(rng, cfg, size=10), op_list(rng, cfg)])
                         yield line(c0, start(rng, cfg, login=False) + [o, follow])
     ctx["scopes"].append("every negative code of %s x {set-up, main command} x {download, upload, listing} x four methods, each followed by a normal operation" % codes)
-    for _ in range(n_of(ctx, 200, 10000)):
+    for _ in range(n_of(ctx, 200, 3000)):
         cfg = Cfg(rng, "C07"); c0 = str(cfg)
         ops = start(rng, cfg)
         for _ in range(rng.range(2, 6)):
@@ -177,7 +179,7 @@ def gen_c09_client(ctx):
                                                         "put:STOR:%s:h61:-:ok:-@E/%s,%s,Drecv:-:c" % (H(a), R(b"150 ok"), R(b"226 ok")),
                                                         "list:%s:0@E/%s,%s,Dsend:h61::c" % (H(a), R(b"150 ok"), R(b"226 ok"))])
     ctx["scopes"].append("every text-taking call x injection strings %s and harmless strings" % [b.decode("latin-1") for b in bad])
-    for _ in range(n_of(ctx, 300, 20000)):
+    for _ in range(n_of(ctx, 300, 4000)):
         cfg = Cfg(rng, "C09"); c0 = str(cfg)
         a = rng.bytes(rng.range(0, 12)) if rng.chance(1, 2) else rng.bytes(rng.range(0, 12), alphabet=b"ab \r\n\x00")
         nm = rng.choice(names)
@@ -211,7 +213,7 @@ def gen_c10(ctx):
                 cfg = Cfg(rng, "C10", ttype=t); c0 = str(cfg)
                 yield line(c0, start(rng, cfg, login=False) + [op_simple(rng, cfg, nm, c1)] + ([] if c1 == 421 else [op_simple(rng, cfg, "noop", 200)]))
     ctx["scopes"].append("login x every code of %s at USER / PASS / TYPE; rename, TYPE and every simple call x every code; both configured types" % CLASS_CODES)
-    for _ in range(n_of(ctx, 300, 20000)):
+    for _ in range(n_of(ctx, 300, 4000)):
         cfg0, ops = random_history(rng, "C10")
         yield line(cfg0, ops)
 
@@ -229,7 +231,7 @@ def gen_c12(ctx):
                         o = op_get(rng, cfg, cancel=cancel, size=size) if kind == "get" else op_put(rng, cfg, cancel=cancel, size=size)
                         yield line(c0, start(rng, cfg, login=False) + [o, op_simple(rng, cfg, "noop", 200)])
     ctx["scopes"].append("downloads and uploads x cancellation at poll 0,1,2,3,4 / never x four methods x both types")
-    for _ in range(n_of(ctx, 200, 10000)):
+    for _ in range(n_of(ctx, 200, 3000)):
         cfg = Cfg(rng, "C12"); c0 = str(cfg)
         cancel = rng.choice(["", "0", "00", "1", "01", "001", "0001"])
         o = op_get(rng, cfg, cancel=cancel) if rng.chance(1, 2) else op_put(rng, cfg, cancel=cancel)
@@ -250,7 +252,7 @@ def gen_c13(ctx):
             else: ops += ["noop@%s,%s" % (R(b"abc not a reply"), extra), "disc:0"]
             ops += ["isconn", op_connect(rng, cfg, user=(b"u", b"p") if rng.chance(1, 2) else None), op_simple(rng, cfg, "noop", 200), op_disc(rng, cfg, graceful=True), "isconn"]
             yield line(c0, ops)
-    for _ in range(n_of(ctx, 300, 20000)):
+    for _ in range(n_of(ctx, 300, 4000)):
         cfg = Cfg(rng, "C13"); c0 = str(cfg)
         ops = []
         for _ in range(rng.range(1, 4)):
@@ -269,7 +271,7 @@ def gen_c13(ctx):
 # ---------------------------------------------------------------- C14
 def gen_c14(ctx):
     rng = ctx["rng"]
-    for _ in range(n_of(ctx, 400, 20000)):
+    for _ in range(n_of(ctx, 400, 4000)):
         cfg = Cfg(rng, "C14"); c0 = str(cfg)
         ops = []
         reg = set()
@@ -298,10 +300,10 @@ def gen_c14(ctx):
 # ---------------------------------------------------------------- C17
 def gen_c17(ctx):
     rng = ctx["rng"]
-    for _ in range(n_of(ctx, 120, 3000)):
+    for _ in range(n_of(ctx, 120, 400)):
         cfg = Cfg(rng, "C17"); c0 = str(cfg)
         ops = start(rng, cfg)
-        for _ in range(rng.range(10, 40) if ctx["tier"] == "quick" else rng.range(40, 200)):
+        for _ in range(rng.range(10, 40) if ctx["tier"] == "quick" else rng.range(30, 80)):
             r = rng.below(16)
             if r == 0: ops.append(op_get(rng, cfg, size=rng.choice([0, 100, 9000])))
             elif r == 1: ops.append(op_put(rng, cfg, size=rng.choice([0, 100, 9000])))
